@@ -234,7 +234,8 @@ Fixpoint scan_wend (l : list stmt) (base depth : nat) : option nat :=
   end.
 
 (* RESUME NEXT: skip_to(END_STATEMENT, break_on_first_char=False) from the start of the failing statement:
-   the next slot that is introduced by `:` or a line header (a slot after THEN or ELSE is not) *)
+   the next slot that is introduced by `:` or a line header.  A slot directly after THEN or ELSE is not;
+   ELSE itself always is (it is stored as `:ELSE`). *)
 Definition then_joined (s : stmt) : bool :=
   match s with SIf _ None => true | SElse None => true | _ => false end.
 Fixpoint next_colon_from (l : list stmt) (base : nat) (prev : stmt) : nat :=
@@ -242,6 +243,7 @@ Fixpoint next_colon_from (l : list stmt) (base : nat) (prev : stmt) : nat :=
   | [] => base
   | SLine _ :: _ => base
   | SEndProg :: _ => base
+  | SElse _ :: _ => base
   | s :: r => if then_joined prev then next_colon_from r (S base) s else base
   end.
 Definition next_colon (code : list stmt) (p : nat) : nat :=
@@ -357,103 +359,139 @@ Fixpoint pop_to_wend (ws : list (nat * nat)) (j : nat) : option (list (nat * nat
   | (w, e) :: rest => if Nat.eqb e j then Some ws else pop_to_wend rest j
   end.
 
-(* ------------------------------------------------------------------ one statement *)
 
-Definition step (code : list stmt) (st : state) : sres :=
+(* ------------------------------------------------------------------ one statement: Ok | Raise *)
+
+(* what one statement does by itself: it continues (new state, output), ends the program, or raises
+   BASIC error c with the stream at epos and the state as the raise leaves it.  What becomes of a raised
+   error (trap_error) is not the statement's business: see `step`. *)
+Inductive pres := PGo (st : state) (out : list Z) | PHalt (o : outcome) | PRaise (st : state) (c : Z) (epos : nat).
+
+Definition pwith_val (st : state) (epos : nat) (r : eres) (k : Z -> pres) : pres :=
+  match r with
+  | EV z => k z
+  | EE c => PRaise st c epos
+  | EU => PHalt Unmodelled
+  end.
+
+Definition pwith_int (st : state) (i : nat) (r : eres) (k : Z -> pres) : pres :=
+  pwith_val st i r (fun z => if in16 z then k z else PRaise st flow_E_OVERFLOW i).
+
+Definition pjump (code : list stmt) (st : state) (i : nat) (n : Z) (k : nat -> pres) : pres :=
+  match find_line code n with
+  | Some j => k j
+  | None => PRaise st flow_E_UNDEFINED_LINE_NUMBER i
+  end.
+
+(* Interpreter._check_while_condition for the WHILE in slot w *)
+Definition pcheck_while (code : list stmt) (st : state) (w : nat) : pres :=
+  match nth_error code w with
+  | Some (SWhile c) =>
+      pwith_val st w (eval (ds st) c) (fun z =>
+        if z =? 0 then
+          match whiles st with
+          | (_, e) :: rest => PGo (set_pc (set_whiles st rest) (S e)) []
+          | [] => PHalt Unmodelled
+          end
+        else PGo (set_pc st (S w)) [])
+  | _ => PHalt Unmodelled
+  end.
+
+Definition pstep (code : list stmt) (st : state) : pres :=
   let i := pc st in
   let d := ds st in
   match nth_error code i with
-  | None => Halt Finished                      (* end of the direct line *)
+  | None => PHalt Finished                      (* end of the direct line *)
   | Some s =>
     match s with
     | SEndProg =>
-        (* end of program: inside an unfinished handler this is No RESUME (not trappable) *)
+        (* end of program: inside an unfinished handler this is No RESUME, which no handler catches *)
         match resume_at d with
-        | Some _ => Halt (Stopped flow_E_NO_RESUME (line_of code (Nat.pred i)))
-        | None => Halt Finished
+        | Some _ => PHalt (Stopped flow_E_NO_RESUME (line_of code (Nat.pred i)))
+        | None => PHalt Finished
         end
-    | SLine _ => Go (set_pc st (S i)) []
-    | SPrint e => with_val code st i i (eval d e) (fun z => Go (set_pc st (S i)) [z])
+    | SLine _ => PGo (set_pc st (S i)) []
+    | SPrint e => pwith_val st i (eval d e) (fun z => PGo (set_pc st (S i)) [z])
     | SLet v e =>
-        with_val code st i i (eval d e) (fun z =>
-          if in16 z then Go (set_pc (set_var st v z) (S i)) [] else trap code st i flow_E_OVERFLOW i)
-    | SGoto n => jump code st i n (fun j => Go (set_pc st j) [])
-    | SGosub n => jump code st i n (fun j => Go (set_pc (set_gosubs st (i :: gosubs st)) j) [])
+        pwith_val st i (eval d e) (fun z =>
+          if in16 z then PGo (set_pc (set_var st v z) (S i)) [] else PRaise st flow_E_OVERFLOW i)
+    | SGoto n => pjump code st i n (fun j => PGo (set_pc st j) [])
+    | SGosub n => pjump code st i n (fun j => PGo (set_pc (set_gosubs st (i :: gosubs st)) j) [])
     | SReturn tgt =>
         match gosubs st with
-        | [] => trap code st i flow_E_RETURN_WITHOUT_GOSUB i
+        | [] => PRaise st flow_E_RETURN_WITHOUT_GOSUB i
         | r :: rest =>
             let st1 := set_gosubs st rest in
             match tgt with
-            | None => Go (set_pc st1 (S r)) []
-            | Some n => jump code st1 i n (fun j => Go (set_pc st1 j) [])
+            | None => PGo (set_pc st1 (S r)) []
+            | Some n => pjump code st1 i n (fun j => PGo (set_pc st1 j) [])
             end
         end
     | SIf c tj =>
-        with_val code st i i (eval d c) (fun z =>
+        pwith_val st i (eval d c) (fun z =>
           if negb (z =? 0) then
             match tj with
-            | Some n => jump code st i n (fun j => Go (set_pc st j) [])
-            | None => Go (set_pc st (S i)) []
+            | Some n => pjump code st i n (fun j => PGo (set_pc st j) [])
+            | None => PGo (set_pc st (S i)) []
             end
           else
             match find_else_from (skipn (S i) code) (S i) 0 with
-            | NoElse k => Go (set_pc st k) []
-            | ElseAt k None => Go (set_pc st (S k)) []
-            | ElseAt k (Some n) => jump code st i n (fun j => Go (set_pc st j) [])
+            | NoElse k => PGo (set_pc st k) []
+            | ElseAt k None => PGo (set_pc st (S k)) []
+            | ElseAt k (Some n) => pjump code st i n (fun j => PGo (set_pc st j) [])
             end)
-    | SElse _ => Go (set_pc st (eol code (S i))) []
+    | SElse _ => PGo (set_pc st (eol code (S i))) []
     | SOn e gosub ns =>
-        with_int code st i (eval d e) (fun z =>
-          if negb ((flow_on_lo <=? z) && (z <=? flow_on_hi)) then trap code st i flow_E_ILLEGAL_FUNCTION_CALL i
+        pwith_int st i (eval d e) (fun z =>
+          if negb ((flow_on_lo <=? z) && (z <=? flow_on_hi)) then PRaise st flow_E_ILLEGAL_FUNCTION_CALL i
           else if (1 <=? z) && (z <=? Z.of_nat (length ns)) then
             let n := nth (Z.to_nat (z - 1)) ns 0 in
-            jump code st i n (fun j =>
-              Go (set_pc (if gosub then set_gosubs st (i :: gosubs st) else st) j) [])
-          else Go (set_pc st (S i)) [])
-    | SEnd => Halt Finished
+            pjump code st i n (fun j =>
+              PGo (set_pc (if gosub then set_gosubs st (i :: gosubs st) else st) j) [])
+          else PGo (set_pc st (S i)) [])
+    | SEnd => PHalt Finished
     | SError e =>
-        with_int code st i (eval d e) (fun z =>
-          if negb ((flow_error_lo <=? z) && (z <=? flow_error_hi)) then trap code st i flow_E_ILLEGAL_FUNCTION_CALL i
-          else trap code st i z i)
+        pwith_int st i (eval d e) (fun z =>
+          if negb ((flow_error_lo <=? z) && (z <=? flow_error_hi)) then PRaise st flow_E_ILLEGAL_FUNCTION_CALL i
+          else PRaise st z i)
     | SOnErrorGoto n =>
         let set_h st :=
           set_ds st {| env := env d; err := err d; erl := erl d; onerr := n; handling := handling d;
                        resume_at := resume_at d; susp := negb (n =? 0) |} in
         if n =? 0 then
           if handling d then
-            (* ON ERROR GOTO 0 inside a handler: the error is raised again, now untrapped *)
-            Halt (Stopped (err d) (erl d))
-          else Go (set_pc (set_h st) (S i)) []
+            (* ON ERROR GOTO 0 inside a handler: the error is raised again, no handler any more *)
+            PHalt (Stopped (err d) (erl d))
+          else PGo (set_pc (set_h st) (S i)) []
         else
           match find_line code n with
-          | Some _ => Go (set_pc (set_h st) (S i)) []
-          | None => trap code st i flow_E_UNDEFINED_LINE_NUMBER i
+          | Some _ => PGo (set_pc (set_h st) (S i)) []
+          | None => PRaise st flow_E_UNDEFINED_LINE_NUMBER i
           end
     | SResume r =>
         match resume_at d with
         | None =>
-            trap code (set_ds st {| env := env d; err := err d; erl := erl d; onerr := 0; handling := handling d;
-                                    resume_at := None; susp := susp d |}) i flow_E_RESUME_WITHOUT_ERROR i
+            PRaise (set_ds st {| env := env d; err := err d; erl := erl d; onerr := 0; handling := handling d;
+                                 resume_at := None; susp := susp d |}) flow_E_RESUME_WITHOUT_ERROR i
         | Some p =>
             let st1 := set_ds st {| env := env d; err := 0; erl := erl d; onerr := onerr d; handling := false;
                                     resume_at := None; susp := susp d |} in
             match r with
-            | RSame => Go (set_pc st1 p) []
-            | RNext => Go (set_pc st1 (next_colon code p)) []
-            | RLine n => jump code st1 i n (fun j => Go (set_pc st1 j) [])
+            | RSame => PGo (set_pc st1 p) []
+            | RNext => PGo (set_pc st1 (next_colon code p)) []
+            | RLine n => pjump code st1 i n (fun j => PGo (set_pc st1 j) [])
             end
         end
     | SFor v a b s =>
-        with_int code st i (eval d a) (fun va =>
-        with_int code st i (eval d b) (fun vb =>
-        with_int code st i (eval d s) (fun vs =>
+        pwith_int st i (eval d a) (fun va =>
+        pwith_int st i (eval d b) (fun vb =>
+        pwith_int st i (eval d s) (fun vs =>
           match scan_next (skipn (S i) code) (S i) 0 with
-          | None => trap code st i flow_E_FOR_WITHOUT_NEXT i
+          | None => PRaise st flow_E_FOR_WITHOUT_NEXT i
           | Some (j, k) =>
               let nvs := vars_of_next code j in
               let name_ok := match nth_error nvs k with Some v' => Nat.eqb v' v | None => true end in
-              if negb name_ok then trap code st i flow_E_NEXT_WITHOUT_FOR j
+              if negb name_ok then PRaise st flow_E_NEXT_WITHOUT_FOR j
               else
                 let st1 := set_var st v va in
                 let st2 := set_fors st1 ({| f_var := v; f_stop := vb; f_step := vs; f_forpos := S i;
@@ -463,30 +501,38 @@ Definition step (code : list stmt) (st : state) : sres :=
                   (* jump to the NEXT and iterate once; when that ends the loop, go on with the rest of
                      its variable list *)
                   match next_vars st2 j k (None :: map Some (skipn (S k) nvs)) with
-                  | IEnded st' => Go (set_pc st' (S j)) []
-                  | ILoop st' => Go st' []
-                  | IErr st' c => trap code st' i c j
+                  | IEnded st' => PGo (set_pc st' (S j)) []
+                  | ILoop st' => PGo st' []
+                  | IErr st' c => PRaise st' c j
                   end
-                else Go (set_pc st2 (S i)) []
+                else PGo (set_pc st2 (S i)) []
           end)))
     | SNext vs =>
         match next_vars st i 0 (next_names vs) with
-        | IEnded st' => Go (set_pc st' (S i)) []
-        | ILoop st' => Go st' []
-        | IErr st' c => trap code st' i c i
+        | IEnded st' => PGo (set_pc st' (S i)) []
+        | ILoop st' => PGo st' []
+        | IErr st' c => PRaise st' c i
         end
     | SWhile c =>
         match scan_wend (skipn (S i) code) (S i) 0 with
-        | None => trap code st i flow_E_WHILE_WITHOUT_WEND i
-        | Some j => check_while code (set_whiles st ((i, j) :: whiles st)) i i
+        | None => PRaise st flow_E_WHILE_WITHOUT_WEND i
+        | Some j => pcheck_while code (set_whiles st ((i, j) :: whiles st)) i
         end
     | SWend =>
         match pop_to_wend (whiles st) i with
-        | None => trap code (set_whiles st []) i flow_E_WEND_WITHOUT_WHILE i
-        | Some ((w, e) :: rest) => check_while code (set_whiles st ((w, e) :: rest)) i w
-        | Some [] => Halt Unmodelled
+        | None => PRaise (set_whiles st []) flow_E_WEND_WITHOUT_WHILE i
+        | Some ((w, e) :: rest) => pcheck_while code (set_whiles st ((w, e) :: rest)) w
+        | Some [] => PHalt Unmodelled
         end
     end
+  end.
+
+(* the parse loop: a statement, and trap_error for what it raises (current_statement = pc st) *)
+Definition step (code : list stmt) (st : state) : sres :=
+  match pstep code st with
+  | PGo st' out => Go st' out
+  | PHalt o => Halt o
+  | PRaise st' c epos => trap code st' (pc st) c epos
   end.
 
 (* ------------------------------------------------------------------ running *)
